@@ -1,101 +1,84 @@
 import Kdf.Model.RCache
+import Kdf.Lemmas.RCache
 import Kdf.Model.Sys
 import Kdf.Spec.ArchWalk
 /-!
-# C09, second part — reads through a re-entrant get-page callback terminate;
-custom methods end where their callback says
+# C09, second part — reads through a re-entrant get-page callback terminate and
+give back what they took; custom methods end where their callback says
 
-`Kdf.Model.RCache.getBuf` (`get_cache_buf`) is a total function by structural
-recursion on the nesting budget the repaired code enforces, for **every**
-callback of the modelled family (any `pre`, any outcome function) and every cache
-state.  The theorems say what that budget means in terms of observable events:
-the number of get-page callbacks started by one read and their nesting are bounded
-by the budget (`read_nesting_bounded`), a hit starts none (`read_hit_no_callback`),
-and the library's own guard answers NODATA after exactly one callback when the
-page being fetched is needed to fetch it and the recycled slot held a page before
-(`read_self_fetch_detected`).  The `example`s replay the two situations of the
-defect report: the warm slot (guard fires at depth 1) and the cold slot (the guard
-cannot fire, the translation ends at the nesting limit).
+`Kdf.Model.RCache.getBuf` transcribes the repaired `get_cache_buf`: a slot is marked
+while its get-page callback runs, a nested fetch recycles the least recently used slot
+that is **not** marked, and fails with NODATA when every slot is.  For **every**
+callback of the modelled family (any `pre`, any outcome function), every cache state
+and address (invariant `Kdf.Lemmas.RCache.getBuf_good`, induction on the recursion
+budget):
+
+* `read_nesting_bounded` / `read_not_stuck` — callbacks never nest deeper than the number of
+  slots that are not being filled (at most `READ_CACHE_SLOTS` for a read from outside), and
+  that is what ends the recursion: the model's budget is never what stops it;
+* `filling_slot_never_chosen`, `filling_slot_untouched`, `filling_marks_restored` — a slot
+  whose fetch is in progress is not recycled and not modified by any nested read, and every
+  call clears exactly the mark it set;
+* `read_gives_back` — the ledger: buffers delivered by the callbacks + buffers the cache
+  held before = `put_page` calls + buffers the cache holds afterwards (nothing is lost; the
+  rest is given back by `cleanup_cache`);
+* `read_hit_no_callback`, `read_self_fetch_detected` — a hit starts no callback; the library's
+  "Infinite read recursion" guard answers NODATA after exactly one callback when the object
+  the callback needs lies in the old window of the slot being filled.
 -/
 namespace Kdf.Props.C09
-open Kdf.Model.Pgt Kdf.Model.RCache
+open Kdf.Model.Pgt Kdf.Model.RCache Kdf.Lemmas.RCache
 
-theorem finish_calls (c : RCache) (i k d : Nat) : (finish c i k d).calls = k := by
-  unfold finish; split <;> rfl
-theorem finish_depth (c : RCache) (i k d : Nat) : (finish c i k d).depth = d := by
-  unfold finish; split <;> rfl
-
-/-- One read starts at most `fuel` get-page callbacks and never nests them deeper
-than `fuel` — whatever the callback reads before it delivers a page, whatever the
-cache holds.  With `fuel = MAX_READ_NESTING` (a read from outside) this is the
-bound the harness measures (`gp=`, `nest=`). -/
+/-- Callbacks started by one `get_cache_buf` never nest deeper (and, in this callback family,
+are never more) than the number of slots that are not being filled — whatever the callback reads
+before it delivers a page, whatever the cache holds, whatever the recursion budget of the model. -/
 theorem read_nesting_bounded (cb : Cb) (fuel : Nat) (c : RCache) (a : FullAddr) :
-    (getBuf cb fuel c a).depth ≤ fuel ∧ (getBuf cb fuel c a).calls ≤ fuel := by
-  induction fuel generalizing c a with
-  | zero =>
-    unfold getBuf
-    split
-    · simp [finish_calls, finish_depth]
-    · simp
-  | succ n ih =>
-    unfold getBuf
-    split
-    · simp [finish_calls, finish_depth]
-    · simp only []
-      -- the callback's own read
-      have hpre : ∀ (p : Out), (p.depth ≤ n ∧ p.calls ≤ n) →
-          ((match p.res with
-            | .error st => failed p.cache (lru c) st (p.calls + 1) (p.depth + 1)
-            | .ok _ =>
-              match cb.res a with
-              | .fail st => failed p.cache (lru c) st (p.calls + 1) (p.depth + 1)
-              | .data => finish (setSlot p.cache (lru c) ⟨⟨a.addr / PAGE * PAGE, a.as⟩, PAGE, true⟩) (lru c) (p.calls + 1) (p.depth + 1)
-              | .noptr => finish (setSlot p.cache (lru c) ⟨⟨a.addr / PAGE * PAGE, a.as⟩, PAGE, false⟩) (lru c) (p.calls + 1) (p.depth + 1)).depth ≤ n + 1 ∧
-           (match p.res with
-            | .error st => failed p.cache (lru c) st (p.calls + 1) (p.depth + 1)
-            | .ok _ =>
-              match cb.res a with
-              | .fail st => failed p.cache (lru c) st (p.calls + 1) (p.depth + 1)
-              | .data => finish (setSlot p.cache (lru c) ⟨⟨a.addr / PAGE * PAGE, a.as⟩, PAGE, true⟩) (lru c) (p.calls + 1) (p.depth + 1)
-              | .noptr => finish (setSlot p.cache (lru c) ⟨⟨a.addr / PAGE * PAGE, a.as⟩, PAGE, false⟩) (lru c) (p.calls + 1) (p.depth + 1)).calls ≤ n + 1) := by
-        intro p ⟨hd, hc⟩
-        cases p.res with
-        | error st => simp only [failed]; omega
-        | ok v =>
-          simp only []
-          cases cb.res a with
-          | fail st => simp only [failed]; omega
-          | data => simp only [finish_calls, finish_depth]; omega
-          | noptr => simp only [finish_calls, finish_depth]; omega
-      apply hpre
-      split
-      · simp
-      · split
-        · exact ih _ _
-        · simp
+    (getBuf cb fuel c a).depth ≤ free c ∧ (getBuf cb fuel c a).calls ≤ free c ∧ free c ≤ c.slots.length :=
+  ⟨(getBuf_good cb fuel c a).depth, (getBuf_good cb fuel c a).calls, free_le_length c⟩
+
+/-- The recursion budget of the model is not what ends a read: with a budget of at least the
+number of slots not being filled the out-of-budget arm is never taken (the C code has no
+counter; it stops because the slot choice fails).  In particular for `read`. -/
+theorem read_not_stuck (cb : Cb) (fuel : Nat) (c : RCache) (a : FullAddr) (h : free c ≤ fuel) :
+    (getBuf cb fuel c a).stuck = false ∧ (read cb c a).stuck = false :=
+  ⟨(getBuf_good cb fuel c a).stuck h, (getBuf_good cb _ c a).stuck (free_le_length c)⟩
+
+/-- A read from outside on the four-slot cache: at most `READ_CACHE_SLOTS` nested callbacks. -/
+theorem read_nesting_le_slots (cb : Cb) (c : RCache) (a : FullAddr) (h : c.slots.length = READ_CACHE_SLOTS) :
+    (read cb c a).depth ≤ READ_CACHE_SLOTS := by
+  have := read_nesting_bounded cb c.slots.length c a
+  unfold Kdf.Model.RCache.read; omega
+
+/-- The slot chosen for a fetch exists and is not being filled. -/
+theorem filling_slot_never_chosen (c : RCache) (i : Nat) (h : pick c = some i) :
+    i < c.slots.length ∧ (slotAt c i).filling = false := pick_usable h
+
+/-- A slot that is being filled (by a callback further up the call chain) comes out of any
+nested `get_cache_buf` exactly as it went in: address, size, data pointer and mark. -/
+theorem filling_slot_untouched (cb : Cb) (fuel : Nat) (c : RCache) (a : FullAddr) (k : Nat)
+    (h : (slotAt c k).filling = true) : slotAt (getBuf cb fuel c a).cache k = slotAt c k :=
+  (getBuf_good cb fuel c a).frame k h
+
+/-- Every call clears exactly the mark it set: afterwards the same slots are marked as before
+(none, after a read from outside). -/
+theorem filling_marks_restored (cb : Cb) (fuel : Nat) (c : RCache) (a : FullAddr) (k : Nat) :
+    (slotAt (getBuf cb fuel c a).cache k).filling = (slotAt c k).filling :=
+  (getBuf_good cb fuel c a).flags k
+
+/-- Give-back.  Every buffer a callback delivered during the call is either still in a slot
+afterwards or `put_page` was called for it: delivered + held before = put + held after.
+(`held` counts the slots with `size != 0` that are not being refilled; `cleanup_cache` puts
+exactly those when the context goes away.) -/
+theorem read_gives_back (cb : Cb) (fuel : Nat) (c : RCache) (a : FullAddr) :
+    (getBuf cb fuel c a).got + held c = (getBuf cb fuel c a).put + held (getBuf cb fuel c a).cache :=
+  (getBuf_good cb fuel c a).ledger
 
 /-- A read of an address some slot covers with data starts no callback: the slot is
 returned and becomes the most recently used one. -/
 theorem read_hit_no_callback (cb : Cb) (fuel : Nat) (c : RCache) (a : FullAddr) (i : Nat)
     (h : c.slots.findIdx? (·.covers a) = some i) (hp : (slotAt c i).ptr = true) :
-    getBuf cb fuel c a = ⟨.ok i, touch c i, 0, 0⟩ := by
+    getBuf cb fuel c a = ⟨.ok i, touch c i, 0, 0, 0, 0, false⟩ := by
   cases fuel <;> (unfold getBuf; simp only [h, finish, hp, if_true])
-
-/-- the guard, stated on the cache state the callback sees -/
-theorem read_self_fetch_detected_aux (cb : Cb) (fuel : Nat) (c : RCache) (a e : FullAddr)
-    (hmiss : c.slots.findIdx? (·.covers a) = none)
-    (hpre : cb.pre a = some e) (hcaps : capsHas cb.readCaps e.as = true)
-    (hfind : (setSlot c (lru c) ⟨a, (slotAt c (lru c)).size, false⟩).slots.findIdx? (·.covers e) = some (lru c))
-    (hlt : lru c < c.slots.length) :
-    (getBuf cb (fuel+1) c a).res = .error .nodata ∧ (getBuf cb (fuel+1) c a).calls = 1 ∧
-    (getBuf cb (fuel+1) c a).depth = 1 := by
-  have hptr : (slotAt (setSlot c (lru c) ⟨a, (slotAt c (lru c)).size, false⟩) (lru c)).ptr = false := by
-    simp [slotAt, setSlot, List.getD, hlt]
-  have hin : getBuf cb fuel (setSlot c (lru c) ⟨a, (slotAt c (lru c)).size, false⟩) e =
-      ⟨.error .nodata, setSlot c (lru c) ⟨a, (slotAt c (lru c)).size, false⟩, 0, 0⟩ := by
-    cases fuel <;> (unfold getBuf; simp only [hfind, finish, hptr]; rfl)
-  unfold getBuf
-  simp [hmiss, hpre, hcaps, hin, failed]
 
 theorem findIdx_set {α} (p : α → Bool) (l : List α) (i : Nat) (x : α) (hi : i < l.length)
     (hx : p x = true) (hn : ∀ y ∈ l, p y = false) : (l.set i x).findIdx? p = some i := by
@@ -109,31 +92,35 @@ theorem findIdx_set {α} (p : α → Bool) (l : List α) (i : Nat) (x : α) (hi 
       have := ih j (by simpa using hi) (fun z hz => hn z (List.mem_cons_of_mem _ hz))
       simp [List.findIdx?_cons, hy, this]
 
-/-- The library's guard.  The callback, asked for the page of `a` (which no slot
-covers), first reads an object `e` that no slot covers either.  If the slot that is
-recycled for `a` held a page before and `e` lies in the window of that page's size
-behind `a` (same address space) — e.g. `e` is in the page of `a`, at or behind it —
-the nested read finds the slot in progress and fails with NODATA without starting
-another callback, and so does the fetch: one callback, nesting 1.  (For an empty
-slot the window is empty: that case ends at the nesting limit, see the `example`.) -/
-theorem read_self_fetch_detected (cb : Cb) (fuel : Nat) (c : RCache) (a e : FullAddr)
-    (hmiss : c.slots.findIdx? (·.covers a) = none)
+/-- The library's guard.  The callback, asked for the page of `a` (which no slot covers), first
+reads an object `e` that no slot covers either.  If the slot `i` chosen for `a` held a page before
+and `e` lies in the window of that page's size behind `a` (same address space) — e.g. `e` is in
+the page of `a`, at or behind it — the nested read finds the slot being filled and fails with
+NODATA without starting another callback, and so does the fetch: one callback, nesting 1. -/
+theorem read_self_fetch_detected (cb : Cb) (fuel : Nat) (c : RCache) (a e : FullAddr) (i : Nat)
+    (hmiss : c.slots.findIdx? (·.covers a) = none) (hpick : pick c = some i)
     (hpre : cb.pre a = some e) (hcaps : capsHas cb.readCaps e.as = true)
     (hnone : ∀ s ∈ c.slots, s.covers e = false)
-    (hwin : (e.addr + W - a.addr) % W < (slotAt c (lru c)).size) (has : a.as = e.as)
-    (hlt : lru c < c.slots.length) :
+    (hwin : (e.addr + W - a.addr) % W < (slotAt c i).size) (has : a.as = e.as) :
     (getBuf cb (fuel+1) c a).res = .error .nodata ∧ (getBuf cb (fuel+1) c a).calls = 1 ∧
     (getBuf cb (fuel+1) c a).depth = 1 := by
-  apply read_self_fetch_detected_aux cb fuel c a e hmiss hpre hcaps _ hlt
-  unfold setSlot
-  apply findIdx_set _ _ _ _ hlt
-  · simp [Slot.covers, hwin, has]
-  · exact hnone
+  have hlt := (pick_usable hpick).1
+  have hfind : (beginFill c i a).slots.findIdx? (·.covers e) = some i := by
+    unfold beginFill setSlot
+    apply findIdx_set _ _ _ _ hlt
+    · simp [Slot.covers, hwin, has]
+    · exact hnone
+  have hptr : (slotAt (beginFill c i a) i).ptr = false := by
+    simp [slotAt, beginFill, setSlot, List.getD, hlt]
+  have hin : getBuf cb fuel (beginFill c i a) e = ⟨.error .nodata, beginFill c i a, 0, 0, 0, 0, false⟩ := by
+    cases fuel <;> (unfold getBuf; simp only [hfind, finish, hptr]; rfl)
+  unfold getBuf
+  simp [hmiss, hpick, preRead, hpre, hcaps, hin, deliver, failed]
 
-/-! ## non-vacuity: the two situations of the defect report -/
+/-! ## non-vacuity: the situations of the defect reports -/
 
 /-- every page exists; the callback reads the frame-table entry of the page first:
-the table starts at 0x10000 in KPHYS, 8 bytes per page, pages below 8 are known -/
+the table starts at `base` in KPHYS, 8 bytes per page, pages below 8 are known -/
 def p2mAt (base : Nat) : Cb :=
   ⟨1, fun a => if a.addr / PAGE < 8 then none else some ⟨base + a.addr / PAGE * 8, 0⟩, fun _ => .data⟩
 def p2mCb : Cb := p2mAt 0x10000
@@ -142,24 +129,27 @@ def p2mCb : Cb := p2mAt 0x10000
 def warm : RCache :=
   (read p2mCb (read p2mCb (read p2mCb (read p2mCb init ⟨0x0, 0⟩).cache ⟨0x1000, 0⟩).cache ⟨0x2000, 0⟩).cache ⟨0x3000, 0⟩).cache
 
-example : warm.order = [0, 1, 2, 3] ∧ (warm.slots.map (·.size)) = [4096, 4096, 4096, 4096] := by decide
+example : warm.order = [0, 1, 2, 3] ∧ (warm.slots.map (·.size)) = [4096, 4096, 4096, 4096] ∧ held warm = 4 := by decide
 
 /-- page 0x10 holds its own table entry (0x10080).  Warm: the guard fires at once. -/
 example : ((read p2mCb warm ⟨0x10048, 0⟩).status, (read p2mCb warm ⟨0x10048, 0⟩).calls, (read p2mCb warm ⟨0x10048, 0⟩).depth)
     = (.nodata, 1, 1) := by decide
 /-- the hypotheses of `read_self_fetch_detected` hold in that state -/
-example : warm.slots.findIdx? (·.covers ⟨0x10048, 0⟩) = none ∧ p2mCb.pre ⟨0x10048, 0⟩ = some ⟨0x10080, 0⟩ ∧
-    (∀ s ∈ warm.slots, s.covers ⟨0x10080, 0⟩ = false) ∧
-    (0x10080 + W - 0x10048) % W < (slotAt warm (lru warm)).size ∧ lru warm < warm.slots.length := by decide
-/-- Cold: the slot being filled has size 0 and matches nothing, every level starts another
-callback for the same page; the translation ends at the nesting limit, with a status. -/
-example : ((read p2mCb init ⟨0x10048, 0⟩).status, (read p2mCb init ⟨0x10048, 0⟩).calls, (read p2mCb init ⟨0x10048, 0⟩).depth)
-    = (.nodata, 16, 16) := by decide
-/-- a page whose table entry lives in another, readable page is delivered; the nested fetch
-recycled the slot that was being filled, the outer callback then stored its own page there -/
+example : warm.slots.findIdx? (·.covers ⟨0x10048, 0⟩) = none ∧ pick warm = some 3 ∧
+    p2mCb.pre ⟨0x10048, 0⟩ = some ⟨0x10080, 0⟩ ∧ (∀ s ∈ warm.slots, s.covers ⟨0x10080, 0⟩ = false) ∧
+    (0x10080 + W - 0x10048) % W < (slotAt warm 3).size := by decide
+/-- Cold: the slot being filled has size 0 and matches nothing; each level marks one more slot,
+the fifth fetch finds none: NODATA after four callbacks, all marks cleared, nothing held. -/
+example : ((read p2mCb init ⟨0x10048, 0⟩).status, (read p2mCb init ⟨0x10048, 0⟩).calls, (read p2mCb init ⟨0x10048, 0⟩).depth,
+    (read p2mCb init ⟨0x10048, 0⟩).cache.slots.map (·.filling), held (read p2mCb init ⟨0x10048, 0⟩).cache)
+    = (.nodata, 4, 4, [false, false, false, false], 0) := by decide
+/-- The situation of the give-back defect: the table entry of page 0x20 lives in the readable
+page 4.  The nested fetch takes slot 2 (slot 3 is being filled), both pages are cached afterwards
+(before the repair the nested fetch recycled slot 3 and page 4's buffer was lost). -/
 example : ((read (p2mAt 0x4000) init ⟨0x20000, 0⟩).res.toOption, (read (p2mAt 0x4000) init ⟨0x20000, 0⟩).calls,
-    (read (p2mAt 0x4000) init ⟨0x20000, 0⟩).depth, (read (p2mAt 0x4000) init ⟨0x20000, 0⟩).cache.order)
-    = (some 3, 2, 2, [3, 0, 1, 2]) := by decide
+    (read (p2mAt 0x4000) init ⟨0x20000, 0⟩).got, (read (p2mAt 0x4000) init ⟨0x20000, 0⟩).put,
+    held (read (p2mAt 0x4000) init ⟨0x20000, 0⟩).cache, (read (p2mAt 0x4000) init ⟨0x20000, 0⟩).cache.order)
+    = (some 3, 2, 2, 0, 2, [3, 2, 0, 1]) := by decide
 
 /-! ## custom methods -/
 
